@@ -211,6 +211,15 @@ def gen(rng, index, tier):
                         'fault': fk, 'k': rng.choice([0, 0, 1, 2, 5, rng.randrange(0, 40)]) if fk != 'out_fail' else rng.randrange(0, 8)})
         else:
             ops.append({'kind': 'mtime_jump', 'delta': rng.choice([1, 10 ** 9, -10 ** 9, 12345])})
+    if rng.random() < (0.04 if tier == 'thorough' else 0.025):
+        # one very large assembly (a 17 MiB label table) somewhere before the probe
+        cfg = make_cfg(rng, 'n_big_labels', corpus.BIG, w=64)
+        cfg['debug'] = True
+        cfg['version'] = rng.choice([1, 3])
+        ops.insert(rng.randrange(len(ops) + 1), {'kind': 'assemble', 'cfg': cfg, 'depth': None})
+        for o in ops:
+            if 'cfg' in o and o['cfg']['program'] != 'n_big_labels':
+                o['cfg']['debug'] = True
     # the probe: collide with something that came before
     prev = [o for o in ops if 'cfg' in o]
     if prev and rng.random() < 0.8:
@@ -228,6 +237,8 @@ def gen(rng, index, tier):
             cfg['files'] = [f for f in cfg['files'] if f[1] != 'stl'] if not corpus.OK[name][0] else cfg['files']
     else:
         cfg = make_cfg(rng, rng.choice(okn), corpus.OK)
+    if any(o.get('cfg', {}).get('program') == 'n_big_labels' for o in ops):
+        cfg['debug'] = True
     ops.append({'kind': 'assemble', 'cfg': cfg, 'depth': rng.choice([None, None, 900, 60]), 'probe': True})
     return {'ops': ops, 'seed': rng.getrandbits(32)}
 
@@ -525,6 +536,9 @@ def run(case):
         prev_kind = kind + (':' + str(rec.get('exc')) if rec.get('outcome') == 'raise' else '')
     sys.setrecursionlimit(1000)
     probes = {'ops': len(records), 'compared_calls': compared}
+    for rec, op in zip(records, case['ops']):
+        if op.get('cfg', {}).get('program') == 'n_big_labels' and rec.get('outcome') == 'ok':
+            probes['big_label_table_assembled'] = probes.get('big_label_table_assembled', 0) + 1
     for rec in records:
         if 'cache' in rec:
             probes['cache_' + rec['cache']] = probes.get('cache_' + rec['cache'], 0) + 1
